@@ -113,7 +113,8 @@ func c08Handle(req string) string {
 	return fmt.Sprintf("%s alloc=%d panic=%v", out, alloc, pan)
 }
 
-var specials = []uint32{0, 1, 0x7fffffff, 0xffffffff}
+// 0x20000000.. : counts whose product with an element size (8, 12, 16, 24) wraps around in 32 bits
+var specials = []uint32{0, 1, 0x7fffffff, 0xffffffff, 0x20000000, 0x20000001, 0x15555556, 0x10000000, 0x0aaaaaab, 0x40000000, 0x80000000}
 
 // mutants of a valid encoding: every truncation, every 4-byte window replaced by special values and by n-1/n+1
 func mutants(b []byte, every int) [][]byte {
